@@ -28,6 +28,11 @@ and matcher class of every definition after each load, differential against a fr
 Part (e), engine E4: regex patterns with optional, nested and alternative groups (first / middle /
 last position) and texts in which each optional group is present / absent; arguments in group-index
 order with None for groups that did not take part, spans = group spans, call log.
+
+Part (f), engine E2: lookup histories - sequences of 2-3 find_match() calls (optionally with a
+registration or clear() in between) on one registry, Step keyword varied independently of the step
+type; every lookup must give what it gives on a fresh registry (lookups never influence each other:
+a memo/cache shows only on the second lookup with a colliding key).
 """
 import atexit
 import itertools
@@ -84,7 +89,17 @@ RULE = ("(a) patterns = token sequences of length 1-3 (thorough: also length 4 o
         "alternation branches; the oracle knows every group's text and span by construction (the re module is not "
         "consulted): Match.arguments in group-index order with start/end = the group's span, (-1, -1, None) for a "
         "group that did not take part; positional call arguments = unnamed groups in that order (None if absent), "
-        "keyword arguments by name. Non-trivial there = a text whose pattern has >= 2 groups.")
+        "keyword arguments by name. Non-trivial there = a text whose pattern has >= 2 groups. "
+        "(f) lookup histories in ONE registry lifetime: registries = every assignment {no definition, 'a bb', "
+        "'a {x}'} to given/when/then/step (81, one function per type); lookups = Step objects with keyword in "
+        "{Given, When, Then, And, But, *} INDEPENDENT of step type in {given, when, then} x texts {a bb, a foo}; all "
+        "ordered pairs of the 36 lookups, all triples over 12 of them, all pairs over 18 of them with an operation "
+        "in between {unrelated registration, registration of a then-definition (accepted or AmbiguousStep), clear() "
+        "+ registration of the definitions rotated over the types}, and every scenario of 2-3 step lines parsed by "
+        "behave's parser (the parser derives the step type of And/But/* lines). Oracle: every lookup (definition "
+        "called, arguments) equals the same lookup on a fresh registry with the same definitions AND the reference "
+        "registry (which ignores the keyword). Non-trivial there = a (registry, family) with typed definitions in "
+        "which the same (keyword, text) is looked up under two step types.")
 ASSUMPTIONS = [
     "field values, literals and prefixes/suffixes are ASCII without 0x/0b/0o prefixes; the languages of {:d} and "
     "{:f} include an optional sign out of '+', '-', ' ' (parse's format-spec sign set; a blank sign only arises "
@@ -344,7 +359,15 @@ def f4(context, *args, **kwargs):
     CALLS.append(("f4", args, kwargs))
 
 
-FUNCS = (f1, f2, f3, f4)
+def f5(context, *args, **kwargs):
+    CALLS.append(("f5", args, kwargs))
+
+
+def f6(context, *args, **kwargs):
+    CALLS.append(("f6", args, kwargs))
+
+
+FUNCS = (f1, f2, f3, f4, f5, f6)
 
 
 class _Null(object):
@@ -1489,6 +1512,208 @@ def rxgroups_cases(lengths):
                 yield (kind, slots)
 
 
+# =============================================================================
+# part (f): LOOKUP histories on one registry - lookups never influence each other
+# =============================================================================
+# registry configuration = for each of given/when/then/step: no definition | 'a bb' | 'a {x}', function f1..f4 by type
+LH_PATTERNS = (None, "a bb", "a {x}")
+LH_KEYWORDS = (u"Given", u"When", u"Then", u"And", u"But", u"*")
+LH_STEP_TYPES = ("given", "when", "then")
+LH_TEXTS = ("a bb", "a foo")
+LH_ALL = tuple((kw, t, x) for x in LH_TEXTS for kw in LH_KEYWORDS for t in LH_STEP_TYPES)              # 36 lookups
+LH_MID = tuple((kw, t, x) for x in LH_TEXTS for kw in (u"Given", u"And", u"*") for t in LH_STEP_TYPES)  # 18
+LH_SMALL = tuple((kw, t, x) for x in LH_TEXTS for kw in (u"Given", u"And") for t in LH_STEP_TYPES)     # 12
+LH_OPS = ("register-unrelated", "register-then-definition", "clear-and-register-rotated")
+PRIMARY = {u"Given": "given", u"When": "when", u"Then": "then"}
+
+
+def lh_definitions(config):
+    return [(TYPES[ti], LH_PATTERNS[slot], ti) for ti, slot in enumerate(config) if slot]
+
+
+def lh_build(defs):
+    reset_state()
+    reg = _B["StepRegistry"]()
+    for (t, pattern, fi) in defs:
+        reg.make_decorator(t)(pattern)(FUNCS[fi])
+    return reg
+
+
+def lh_reference(defs, step_type, text):
+    """reference registry (keyword plays no part): first match in [type list ++ generic list]"""
+    ref = Ref()
+    for (t, pattern, fi) in defs:
+        ref.lists[t].append((pattern, "parse", fi))
+    r = ref.lookup(step_type, text)
+    return None if r is None else ("f%d" % (r[0] + 1), r[1])
+
+
+def lh_observe(reg, step):
+    m = reg.find_match(step)
+    if m is None:
+        return None
+    ran = run_match(m)
+    if ran[0] != "called" or len(ran[2]) != 1:
+        return ("bad-run", ran[0], ran[1], len(ran[2]))
+    c0 = ran[2][0]
+    return (c0[0], c0[1], tuple(sorted((k, typed(x)) for k, x in c0[2].items())))
+
+
+def lh_apply_op(reg, defs, op):
+    """an operation between two lookups -> the definitions a fresh registry would need to be equivalent"""
+    if op == "register-unrelated":
+        reg.make_decorator("given")("c d")(FUNCS[4])
+        return defs + [("given", "c d", 4)]
+    if op == "register-then-definition":
+        existing = [d for d in defs if d[0] == "then"]
+        try:
+            reg.make_decorator("then")("a bb")(FUNCS[5])
+            raised = False
+        except _B["AmbiguousStep"]:
+            raised = True
+        # reference: ambiguous iff a then-definition exists (both pool patterns match the text 'a bb')
+        if raised != bool(existing):
+            return None
+        return defs if existing else defs + [("then", "a bb", 5)]
+    if op == "clear-and-register-rotated":
+        reg.clear()
+        rotated = [(TYPES[(TYPES.index(t) + 1) % 3] if t != "step" else "step", pattern, fi) for (t, pattern, fi) in defs]
+        for (t, pattern, fi) in rotated:
+            reg.make_decorator(t)(pattern)(FUNCS[fi])
+        return rotated
+    raise ValueError(op)
+
+
+def lh_kwclass(kw, t):
+    if kw in PRIMARY:
+        return "primary" if PRIMARY[kw] == t else "primary-of-another-type"
+    return "continuation"
+
+
+def lh_run_sequence(config, seq, fresh_cache):
+    """one registry lifetime: seq = (('L', keyword, step type, text) | ('O', operation), ...) -> (violations, digest)"""
+    defs = lh_definitions(config)
+    reg = lh_build(defs)
+    v, dg = [], []
+    earlier = []
+    between = "nothing"
+    for item in seq:
+        if item[0] == "O":
+            newdefs = lh_apply_op(reg, defs, item[1])
+            between = item[1]
+            if newdefs is None:
+                v.append(({"subcheck": "lookup-history", "clause": "registration-between-lookups-differs",
+                           "operation": item[1]},
+                          "definitions %r, lookups %r, then %s: AmbiguousStep raised/not raised against the reference"
+                          % (defs, earlier, item[1])))
+                break
+            defs = newdefs
+            continue
+        _, kw, t, text = item
+        step = _B["Step"]("c11.feature", 1, kw, t, text)
+        got = lh_observe(reg, step)
+        dg.append(got)
+        want = lh_reference(defs, t, text)
+        key = (tuple(defs), kw, t, text)
+        if not earlier and between == "nothing":
+            fresh = got                     # the first lookup of a lifetime IS the fresh-registry result
+            fresh_cache[key] = got
+        else:
+            fresh = fresh_cache.get(key)
+            if fresh is None and key not in fresh_cache:
+                fresh = fresh_cache[key] = lh_observe(lh_build(defs), step)
+        ok_ref = (got is None and want is None) or (got is not None and want is not None and got[0] == want[0]
+                                                    and got[1] == () and got[2] in want[1])
+        if earlier and got != fresh:
+            same_text = [e for e in earlier if e[3] == text]
+            collision = ("same-text-other-step-type" if any(e[2] != t for e in same_text)
+                         else "same-text-same-step-type" if same_text else "other-text")
+            v.append(({"subcheck": "lookup-history", "clause": "lookup-depends-on-earlier-lookups",
+                       "keyword": lh_kwclass(kw, t), "earlier": collision, "between": between},
+                      "definitions %r; after the lookups %r%s the lookup (keyword %r, step type %r, text %r) -> %r, "
+                      "but the same lookup on a fresh registry with the same definitions -> %r (reference: %r)"
+                      % (defs, [e[1:] for e in earlier], "" if between == "nothing" else " and %s" % between,
+                         kw, t, text, got, fresh, want)))
+        elif not ok_ref:
+            v.append(({"subcheck": "lookup-history", "clause": "differs-from-reference-registry",
+                       "keyword": lh_kwclass(kw, t)},
+                      "definitions %r: lookup (keyword %r, step type %r, text %r) -> %r, reference %r"
+                      % (defs, kw, t, text, got, want)))
+        earlier.append(item)
+    return v, dg
+
+
+LH_FEATURE = u"Feature: f\n  Scenario: s\n%s"
+
+
+def lh_parsed_sequences():
+    """small scenarios 'Given X / And X / Then Y': the PARSER derives the step type of And/But/* lines"""
+    for n in (2, 3):
+        for first in (u"Given", u"When", u"Then"):
+            for rest in itertools.product(LH_KEYWORDS, repeat=n - 1):
+                for texts in itertools.product(LH_TEXTS, repeat=n):
+                    yield tuple(zip((first,) + rest, texts))
+
+
+def lookup_history_case(case):
+    """case = (config, family)  family: 'pairs' | 'triples' | 'pairs-with-op' | 'parsed' | ('seq', sequence) (replay)"""
+    if not _B:
+        init_worker()
+    config, family = case
+    config = tuple(config)
+    fresh_cache = {}
+    seqs = []
+    if family == "pairs":
+        seqs = ((("L",) + a, ("L",) + b) for a in LH_ALL for b in LH_ALL)
+    elif family == "triples":
+        seqs = ((("L",) + a, ("L",) + b, ("L",) + c) for a in LH_SMALL for b in LH_SMALL for c in LH_SMALL)
+    elif family == "pairs-with-op":
+        seqs = ((("L",) + a, ("O", op), ("L",) + b) for op in LH_OPS for a in LH_MID for b in LH_MID)
+    elif family == "parsed":
+        from behave.parser import parse_feature
+
+        def parsed():
+            for lines in lh_parsed_sequences():
+                doc = LH_FEATURE % u"".join(u"    %s %s\n" % (kw, x) for (kw, x) in lines)
+                steps = parse_feature(doc, filename="c11.feature").scenarios[0].steps
+                yield tuple(("L", st.keyword, st.step_type, st.name) for st in steps)
+        seqs = parsed()
+    else:
+        seqs = [tuple(tuple(i) for i in family[1])]
+    results, nlook, nseq, dgs = [], 0, 0, []
+    collide = 0
+    perdesc = {}
+    for seq in seqs:
+        v, dg = lh_run_sequence(config, seq, fresh_cache)
+        nseq += 1
+        nlook += len(dg)
+        dgs.append(dg)
+        looks = [i for i in seq if i[0] == "L"]
+        if any(a[1] == b[1] and a[3] == b[3] and a[2] != b[2] for k, a in enumerate(looks) for b in looks[k + 1:]):
+            collide += 1
+        for desc, msg in v:
+            key = tuple(sorted(desc.items()))
+            perdesc[key] = perdesc.get(key, 0) + 1
+            if perdesc[key] <= 2:
+                results.append({"case": (config, ("seq", seq)), "v": [(desc, msg)], "n": 0})
+            else:
+                results.append({"case": (config, ("seq", seq)), "v": [(desc, "(as above) " + msg[:200])], "n": 0})
+    reset_state()
+    fam = family if isinstance(family, str) else "seq"
+    results.insert(0, {"case": case, "n": nlook, "dg": digest(dgs),
+                       "nt": (config, fam) if collide and any(config[:3]) else None,
+                       "st": {"lookup_histories": nseq, "lookup_histories_colliding": collide},
+                       "out": ("lookup-history", fam, "typed+generic" if any(config[:3]) and config[3] else
+                               "typed-only" if any(config[:3]) else "generic-only" if config[3] else "empty")})
+    return results
+
+
+def lookup_history_cases(families):
+    for fam in families:
+        for config in itertools.product((0, 1, 2), repeat=4):
+            yield (config, fam)
+
+
 def bfs(ctx, alpha, depth, name, dedup=True):
     """one ctx.sweep per level; returns (hashes of the canonical states up to depth-1, number of expanded states,
     hashes of the states first reached at the last level).  Canonical states are compared through their 64-bit
@@ -1581,6 +1806,17 @@ def _run(ctx):
             ctx.guard(any(o[1] == k and o[2] == shape for o in routs), "regex groups (%s): %s exercised" % (k, shape))
         ctx.guard(any(o[1] == k and o[2] == "absent-group-after-matched-ones" and o[3] == "unnamed>=2" for o in routs),
                   "regex groups (%s): absent optional group after a matched one, both unnamed" % k)
+    # ---------------------------------------------------------------- (f) lookup histories on one registry
+    ctx.sweep(lookup_history_case, lookup_history_cases(("pairs", "triples", "pairs-with-op", "parsed")), chunk=1,
+              name="lookup histories: 2-3 find_match() calls, keyword independent of step type")
+    louts = [o for o in ctx.outcomes if isinstance(o, tuple) and o and o[0] == "lookup-history"]
+    for fam in ("pairs", "triples", "pairs-with-op", "parsed"):
+        ctx.guard(set(o[2] for o in louts if o[1] == fam) >= {"typed+generic", "typed-only", "generic-only"},
+                  "lookup histories (%s) over registries with typed, generic and both kinds of definitions" % fam)
+    ctx.guard(ctx.st.get("lookup_histories_colliding", 0) > 10000,
+              "lookup histories in which one (keyword, text) is looked up under two step types")
+    ctx.note("lookup_histories", int(ctx.st.get("lookup_histories", 0)))
+    ctx.note("lookup_histories_same_keyword_and_text_under_two_step_types", int(ctx.st.get("lookup_histories_colliding", 0)))
     # ---------------------------------------------------------------- (d) module-loading histories
     maxmod = 3 if ctx.quick else 5
     ctx.sweep(modules_case, modules_cases(maxmod), chunk=32,
